@@ -9,4 +9,9 @@ namespace GV.GoImp
 /-- `s[i]` with the zero value `z` of the element type -/
 def idxD {α} (z : α) (s : List α) (i : Int) : α := s.getD i.toNat z
 
+/-- `uint64(x)` / `uint(x)` of a Go integer (sub-pass PolyEval, tools/goslp/imp_poly.go): the value mod 2^64 -/
+def toU64 (x : Int) : Int := x % 2^64
+/-- `x >> s` on uint64 values -/
+def shrU64 (x s : Int) : Int := x / 2^s.toNat
+
 end GV.GoImp
